@@ -9,6 +9,14 @@
 // reader below and reports header fields and decoded samples.  Nothing is
 // decided here: the orchestrator compares the report with what TLC computed.
 //
+// Large images do not come as a list of codes: the case names a pattern id and the
+// input is Pix(pat, x, y, k) of spec/utility/ImageWriters.tla, mirrored in pix()
+// below (the case also carries a few spot values computed by TLC; the driver
+// reports what its own pix() gives there and the orchestrator refuses to go on if
+// the two formulas disagree).  For such a case the report holds the decoded
+// samples at the rows x columns the case asks for and, for EVERY file row, the sum
+// and the position-weighted sum of all its samples modulo 65521.
+//
 // codes: RGBA8 component k of a uint32 pixel = (pixel >> 8k) & 255 = code;
 //        float component = (code - 100) / 4 (exact); decoding inverts this and
 //        reports anything that is not such a float as a string.
@@ -27,6 +35,14 @@ using vj::Json;
 using namespace rkcommon::math;
 
 static const int GUARD_PIXELS = 8;
+
+// Pix(pat, x, y, k) of ImageWriters.tla
+static long long pix(long long pat, long long x, long long y, long long k)
+{
+  static const long long coef[2][6] = {{7, 13, 5, 3, 11, 0}, {29, 3, 17, 1, 7, 100}};
+  const long long *a = coef[pat == 2 ? 1 : 0];
+  return (a[0] * x + a[1] * y + a[2] * k + a[3] * (x / 251) + a[4] * (y / 251) + a[5]) % 251;
+}
 
 static float codeToFloat(long long c) { return (float)(c - 100) / 4.0f; }
 
@@ -184,12 +200,17 @@ struct World
     const size_t npx = (size_t)(w * h);
     const size_t total = npx + (padded ? GUARD_PIXELS : 0);
     PIXEL_T *px = (PIXEL_T *)exactBlock(total * sizeof(PIXEL_T));
+    const bool pattern = arg.has("pat");
+    const long long pat = arg["pat"].num();
     const Json &codes = arg["pix"];
-    if ((long long)codes.size() != w * h * pixcomp) throw std::runtime_error("driver: wrong number of component codes");
+    if (!pattern && (long long)codes.size() != w * h * pixcomp) throw std::runtime_error("driver: wrong number of component codes");
     std::vector<long long> one((size_t)pixcomp);
     for (size_t i = 0; i < total; ++i) {
-      for (int k = 0; k < pixcomp; ++k)
-        one[(size_t)k] = i < npx ? codes[i * (size_t)pixcomp + (size_t)k].num() : arg["sentinel"].num();
+      for (int k = 0; k < pixcomp; ++k) {
+        if (i >= npx) one[(size_t)k] = arg["sentinel"].num();
+        else if (pattern) one[(size_t)k] = pix(pat, (long long)(i % (size_t)w), (long long)(i / (size_t)w), k);
+        else one[(size_t)k] = codes[i * (size_t)pixcomp + (size_t)k].num();
+      }
       fill(px[i], one);
     }
     return px;
@@ -257,7 +278,48 @@ struct World
     } else {
       o.set("scale", d.third);
     }
-    if (d.ok) {
+    if (d.ok && arg.has("pat")) {
+      // sampled positions + per-row aggregates instead of the whole matrix
+      Json smp = Json::array();
+      const Json &rows = arg["rows"], &cols = arg["cols"];
+      for (size_t i = 0; i < rows.size(); ++i) {
+        Json r = Json::array();
+        for (size_t j = 0; j < cols.size(); ++j) {
+          const long long y = rows[i].num(), x = cols[j].num();
+          if (y < 0 || y >= d.height || x < 0 || x >= d.width) r.push(Json("outside the decoded image"));
+          else r.push(d.pix[(size_t)y][(size_t)x]);
+        }
+        smp.push(r);
+      }
+      o.set("samples", smp);
+      Json rs = Json::array(), rws = Json::array();
+      for (long long y = 0; y < d.height; ++y) {
+        long long s1 = 0, s2 = 0, i = 0;
+        bool ints = true;
+        const Json &row = d.pix[(size_t)y];
+        for (size_t x = 0; x < row.size(); ++x)
+          for (size_t c = 0; c < row[x].size(); ++c, ++i) {
+            const Json &v = row[x][c];
+            if (v.type != Json::Int || v.i < 0 || v.i > 65535) { ints = false; continue; }
+            s1 = (s1 + v.i) % 65521;
+            s2 = (s2 + ((i % 251) + 1) * v.i) % 65521;
+          }
+        rs.push(Json(ints ? s1 : -1LL));
+        rws.push(Json(ints ? s2 : -1LL));
+      }
+      o.set("rowsum", rs);
+      o.set("rowwsum", rws);
+      Json sp = Json::array();
+      const Json &spots = arg["spots"];
+      for (size_t i = 0; i < spots.size(); ++i) {
+        Json e = Json::array();
+        e.push(spots[i][0]); e.push(spots[i][1]); e.push(spots[i][2]);
+        e.push(Json(pix(arg["pat"].num(), spots[i][0].num(), spots[i][1].num(), spots[i][2].num())));
+        sp.push(e);
+      }
+      o.set("spots", sp);
+      o.set("trailing_bytes", d.trailing);
+    } else if (d.ok) {
       o.set("pix", d.pix);
       o.set("trailing_bytes", d.trailing);
     }
